@@ -56,7 +56,7 @@ PROPS = {
     ),
 }
 PROBES = {'C04': ['ghost_particles_present', 'periodic_domain', 'two_arrays_different_steppers', 'update_nnps_false', 'second_equation_set',
-                  'py_stage_hook', 'py_hook_injects_particles', 'same_stepper_class_different_parameters', 'py_hook_reads_other_array', 'h_grows_during_step', 'empty_array', 'sourceless_equation_set', 'callback_object_with_false_truth_value', 'same_named_integrator_class_compiled_before', 'three_equation_sets', 'several_steps', 'noncontiguous_times', 't0_nonzero', 'sim_schedule', 'shipped_stepper', 'history_compared']}
+                  'py_stage_hook', 'py_hook_injects_particles', 'same_stepper_class_different_parameters', 'py_hook_reads_other_array', 'h_grows_during_step', 'empty_array', 'sourceless_equation_set', 'callback_object_with_false_truth_value', 'same_named_integrator_class_compiled_before', 'three_equation_sets', 'first_array_stepper_lacks_stages', 'several_steps', 'noncontiguous_times', 't0_nonzero', 'sim_schedule', 'shipped_stepper', 'history_compared']}
 
 
 def needs_isolation(sc):
@@ -73,6 +73,9 @@ def _programs(tier):
             progs.append(dict(integrator=integ, stepper='trace', narr=narr))
         # two arrays stepped by the same stepper class with different parameters
         progs.append(dict(integrator=integ, stepper='trace_same', narr=2))
+    for integ in ('PECIntegrator', 'GFiveStage', 'TVDRK3Integrator'):
+        # the array that comes first by name has a stepper with one stage only, the other a full one
+        progs.append(dict(integrator=integ, stepper='trace_partial', narr=2))
     for integ in ('EulerIntegrator', 'PECIntegrator', 'TVDRK3Integrator'):
         # a py_stage hook that injects real particles (every compute_accelerations of these integrators refreshes the neighbours)
         progs.append(dict(integrator=integ, stepper='trace_inject', narr=1))
@@ -128,7 +131,7 @@ def _scenario(t, pr, sim_override=None):
         steps.append([tt, dt])
         tt = tt + dt if t.bool(0.8) else tt + dt + 1.0
     return dict(integrator=pr['integrator'], stepper=pr['stepper'], narr=pr['narr'], dim=dim, arrays=arrays, steps=steps,
-                periodic=int(pr['stepper'] in ('trace', 'trace_same') and t.bool(0.3)), sim=int(t.bool(0.4)) if sim_override is None else sim_override,
+                periodic=int(pr['stepper'] in ('trace', 'trace_same', 'trace_partial') and t.bool(0.3)), sim=int(t.bool(0.4)) if sim_override is None else sim_override,
                 sched_seed=t.int(0, 1 << 30), threads=t.choice([2, 3, 4]), c=[float(t.int(1, 9)), float(t.int(1, 9))],
                 move=t.choice([0.0, 0.01, 0.03]), grow=t.choice([1.0, 1.0, 1.3, 1.7]), peer=int(t.bool(0.6)),
                 nosrc_set=(t.choice([0, 1]) if (pr['integrator'] in NEEDS_TWO_EVALS and t.bool(0.35)) else None),
@@ -187,6 +190,8 @@ def _make_setup(sc):
             pa.add_constant('c0', 1.0)
             if st == 'trace_inject':
                 steppers[name] = D.TStepInject(c=cvals[0])
+            elif st == 'trace_partial':
+                steppers[name] = D.TStepPartial(c=cvals[0]) if a == 0 else D.TStepB(c=cvals[1])
             elif st == 'trace_same':
                 # the second array's py_stage1 hook reads the first array's state (already stepped in that stage)
                 steppers[name] = D.TStep(c=cvals[a], move=float(sc.get('move', 0.0)) * (1 + a), grow=float(sc.get('grow', 1.0)),
@@ -328,7 +333,7 @@ def execute(sc, prop):
         dim = int(sc.get('dim', 1))
         steps = [[float(a), float(b)] for a, b in sc.get('steps', [])]
         assert dim == (1 if sc['stepper'].startswith('trace') else 3) and 1 <= len(steps) <= 6 and all(b > 0 for a, b in steps)
-        assert sc['stepper'] in ('trace', 'trace_same', 'trace_inject') or sc['stepper'] in SHIPPED_STEPPERS
+        assert sc['stepper'] in ('trace', 'trace_same', 'trace_inject', 'trace_partial') or sc['stepper'] in SHIPPED_STEPPERS
         assert len(sc['arrays']) == int(sc['narr'])
     except Exception as e:
         raise InvalidScenario(repr(e))
@@ -345,7 +350,7 @@ def execute(sc, prop):
             s = sig_of(sc)
             s.update(sig)
             viol.append(dict(invariant=inv, detail=detail, sig=s))
-    periodic = bool(sc.get('periodic')) and sc['stepper'] in ('trace', 'trace_same')
+    periodic = bool(sc.get('periodic')) and sc['stepper'] in ('trace', 'trace_same', 'trace_partial')
     sim = bool(sc.get('sim'))
     for k in ('PYSPH_VERIF_SCHED', 'PYSPH_VERIF_SCHED_MODULE'):
         os.environ.pop(k, None)
@@ -442,6 +447,8 @@ def execute(sc, prop):
     exact = sc['stepper'].startswith('trace')
     if sc['stepper'] == 'trace_inject':
         probe('py_hook_injects_particles')
+    if sc['stepper'] == 'trace_partial':
+        probe('first_array_stepper_lacks_stages')
     if sc['stepper'] == 'trace_same':
         probe('same_stepper_class_different_parameters')
         if sc.get('peer'):
